@@ -1,2 +1,14 @@
+use crate::vj;
+use libhaystack::val::*;
 use serde_json::{json, Value as J};
-pub fn run(api: &str, _case: &J) -> J { json!({"bad_api": api}) }
+
+pub fn run(api: &str, case: &J) -> J {
+    match api {
+        "rfc3339" => {
+            let text = String::from_utf8(vj::unhex(case["in"].as_str().unwrap())).unwrap_or_default();
+            let r = if case["tz"].is_null() { DateTime::parse_from_rfc3339(&text) } else { DateTime::parse_from_rfc3339_with_timezone(&text, case["tz"].as_str().unwrap()) };
+            match r { Ok(d) => json!({"ok": vj::dt_to(&d)}), Err(e) => json!({"err": e}) }
+        }
+        other => crate::apis11::run(other, case),
+    }
+}
